@@ -405,6 +405,7 @@ func runKeyfile(k *kernel.K) {
 	s.typeSwap()
 	s.stillSame("typeSwap")
 	s.otherKeys(k.Bytes(32, "other-key-material"))
+	s.callerBuffer(k.Bytes(32, "buffer-key-material"))
 
 	s.count("decrypt-errors", s.errs)
 	s.count("same-key-results", s.same)
@@ -779,4 +780,86 @@ func (s *scn) otherKeys(seed []byte) {
 		s.stillSame("reading a second " + schemes[sch] + " key file")
 		s.k.Probes["second-key-files"]++
 	}
+}
+
+// callerBuffer: the password argument belongs to the caller, who wipes or reuses the buffer after a
+// call returns (a CLI zeroes the password it read; a loop unlocks several keys through one buffer).
+// What "the same password" means is decided by the bytes at the time of each call, never by the
+// identity of the slice. All three steps need a non-empty password.
+func (s *scn) callerBuffer(seed []byte) {
+	if len(s.pw) == 0 {
+		return
+	}
+	pw1 := append([]byte{}, s.pw...)
+	pw2 := append([]byte{}, s.pw...)
+	for i := range pw2 {
+		pw2[i] ^= 0x15
+	}
+	sch := int(seed[0]) % len(schemes)
+	k2, err := makeKey(sch, seed)
+	if err != nil {
+		return
+	}
+	want2 := append([]byte{}, k2.Encode()...)
+	buf := append([]byte{}, pw1...)
+	var ct1, ct2 []byte
+	var e1, e2 error
+	dec := func(c, pw []byte, typ string) (crypto.PrivateKey, error, bool) {
+		var pk crypto.PrivateKey
+		var derr error
+		if site, val, p := guard(func() { pk, derr = keystore.DecryptPrivateKey(c, pw, typ) }); p {
+			s.violate(3, "panic", "panic@"+site, "caller-owned buffer: panic in gossamer code: %v at %s", val, site)
+			return nil, nil, false
+		}
+		return pk, derr, true
+	}
+	if site, val, p := guard(func() { ct1, e1 = keystore.EncryptPrivateKey(s.priv, buf) }); p || e1 != nil {
+		if p {
+			s.violate(3, "panic", "panic@"+site, "caller-owned buffer: panic in gossamer code: %v at %s", val, site)
+		}
+		return
+	}
+	s.k.Fault("password-buffer-wiped")
+	for i := range buf {
+		buf[i] = 0
+	}
+	zero := make([]byte, len(pw1))
+	if !bytes.Equal(zero, pw1) {
+		if pk, derr, ok := dec(ct1, zero, s.typ); ok && derr == nil && pk != nil {
+			s.violate(1, "tamper-evidence", "different-password-accepted", "after the caller wiped its password buffer, an all-zero password of the same length (%d bytes) decrypted the key", len(zero))
+		}
+	}
+	// the same buffer now carries another password for another key
+	s.k.Fault("password-buffer-reused")
+	copy(buf, pw2)
+	if site, val, p := guard(func() { ct2, e2 = keystore.EncryptPrivateKey(k2, buf) }); p || e2 != nil {
+		if p {
+			s.violate(3, "panic", "panic@"+site, "caller-owned buffer: panic in gossamer code: %v at %s", val, site)
+		}
+		return
+	}
+	copy(buf, pw1)
+	if pk, derr, ok := dec(ct2, append([]byte{}, pw1...), schemes[sch]); ok && derr == nil && pk != nil {
+		s.violate(1, "tamper-evidence", "different-password-accepted", "a key encrypted through a reused password buffer opened with the buffer's earlier password")
+	}
+	// an unrelated password in between, as after other unlocks or a restart
+	dec(ct1, []byte("unrelated-password"), s.typ)
+	pk, derr, ok := dec(ct2, append([]byte{}, pw2...), schemes[sch])
+	if !ok {
+		return
+	}
+	if derr != nil || pk == nil {
+		s.violate(2, "round-trip", "reused-buffer-key-rejected", "a key encrypted through a reused password buffer no longer opens with the password the buffer held at the time: %v", derr)
+	} else if !bytes.Equal(pk.Encode(), want2) {
+		s.violate(0, "different-key", "different-key/reused-buffer", "a key encrypted through a reused password buffer read back as a different key")
+	}
+	if pk, derr, ok := dec(ct1, append([]byte{}, pw1...), s.typ); ok {
+		if derr != nil || pk == nil {
+			s.violate(2, "round-trip", "wiped-buffer-key-rejected", "a key encrypted before the caller wiped its buffer no longer opens with the same password: %v", derr)
+		} else if same, why := s.compare(pk); !same {
+			s.violate(0, "different-key", "different-key/wiped-buffer", "a key encrypted before the caller wiped its buffer read back as a different key: %s", why)
+		}
+	}
+	s.stillSame("password buffer reuse")
+	s.k.Probes["caller-buffer-scenarios"]++
 }
